@@ -4,8 +4,13 @@ package main
 // Direct oracle (implementation alone): for random and boundary in-domain values v of every type with an
 // Encode: Parse(Encode(v)) dumps equal to v and Encode(Parse(Encode(v))) == Encode(v); the helpers likewise;
 // the external GBK codec is validated exhaustively over every two-byte code point + ASCII.
-// Correspondence: "brt" (bytes -> parse -> dump + re-encoded bytes) and "benc" (value -> bytes -> parse back)
-// answered by the real code and by the extracted Coq model.
+// Correspondence: "brt" (bytes -> parse -> dump + re-encoded bytes) and "benc" (value -> bytes -> parse back, wf=)
+// answered by the real code and by the extracted Coq model (coq/Model/Msg_*.v, Params.v via oracle/drv_c07.ml);
+// "bparse" on neighbours of encoded bodies (parse side only), "ptable" (the parameter id -> field / kind table read off
+// the real struct and parser against the model's), the helper ops.  Values are built WITHOUT the parser (reflection
+// for terminal parameters, the standard's bit tables for location details); bodies laid out from the standard must be
+// accepted and re-encoded identically (wellFormedBodies).  Recorded findings have their own witnesses
+// (signIDFinding, the caseless parameter fields) and are kept out of the correspondence stream.
 
 import (
 	"bytes"
